@@ -103,7 +103,7 @@ def lib_sources(tree):
     return out
 
 
-def build_flavour(flavour, exec_sources=("abtx.c", "envmode.c", "mempool.c"), extra_defs=(), quiet=True,
+def build_flavour(flavour, exec_sources=("abtx.c", "envmode.c", "mempool.c", "faults.c"), extra_defs=(), quiet=True,
                   extra_edits=(), name=None):
     """Returns (path to executor binary, info dict).  Raises on build failure."""
     t0 = time.time()
